@@ -407,6 +407,119 @@ fn typed_bytes(c: &TypedCase) -> Vec<u8> {
     b
 }
 
+// ------------------------------------------------- decoders that live in stateful / glue code
+
+/// The registration manager decodes REG2 (the id) only in the state "REG1 outstanding on this link".
+#[derive(Debug, Clone, Hash, Serialize, Deserialize)]
+pub struct RegFrame {
+    /// 0 fresh manager, 1 REG1 outstanding on `pending`, 2 an id was adopted earlier and a new REG1 is outstanding
+    pub state: u8,
+    pub pending: u8,
+    pub arrive: u8,
+    /// 0 REG2, 1 REG3, 2 REG_ERR, 3 REG_NGP, 4 REG1 (not a reply), 5 keepalive
+    pub ty: u8,
+    pub len: u16,
+}
+
+pub fn check_reg_frame(c: &RegFrame, obs: &mut Obs) -> CheckResult {
+    use srtla_core::registration::SrtlaRegistrationManager;
+    let now = crate::engine::core::T0;
+    let mut reg = SrtlaRegistrationManager::new();
+    let mut first_id = [0u8; 256];
+    for (i, x) in first_id.iter_mut().enumerate() {
+        *x = (i as u8).wrapping_mul(3).wrapping_add(1);
+    }
+    if c.state == 2 {
+        let _ = reg.build_reg1_for(c.pending as usize, now);
+        let mut f = vec![0x92u8, 0x01];
+        f.extend_from_slice(&first_id);
+        let _ = reg.process_registration_packet(c.pending as usize, &f, now);
+        vensure!(reg.srtla_id()[..] == first_id[..], "decode-reg2-id", "set-up: a 258-byte REG2 on the pending link was not adopted");
+    }
+    if c.state >= 1 {
+        let _ = reg.build_reg1_for(c.pending as usize, now + 10);
+    }
+    let ty: u16 = [0x9201u16, 0x9202, 0x9210, 0x9211, 0x9200, 0x9000][c.ty as usize % 6];
+    let mut frame = vec![0u8; c.len as usize];
+    for (i, x) in frame.iter_mut().enumerate() {
+        *x = (i as u8).wrapping_mul(7).wrapping_add(0x55);
+    }
+    if frame.len() >= 2 {
+        frame[0] = (ty >> 8) as u8;
+        frame[1] = ty as u8;
+    }
+    let before = *reg.srtla_id();
+    let r = std::panic::catch_unwind(std::panic::AssertUnwindSafe(|| reg.process_registration_packet(c.arrive as usize, &frame, now + 20)));
+    if let Err(p) = r {
+        return viol("decode-panic", format!("process_registration_packet panicked on a {}-byte frame of type {:#06x} (state {}, REG1 outstanding on link {}, frame on link {}): {}", frame.len(), ty, c.state, c.pending, c.arrive, crate::rt::panic_text(&p)));
+    }
+    let adopt = c.state >= 1 && c.ty % 6 == 0 && c.arrive == c.pending && frame.len() >= 258;
+    if adopt {
+        vensure!(reg.srtla_id()[..] == frame[2..258], "decode-reg2-id", "a {}-byte REG2 on the link with the REG1 outstanding: adopted id is not bytes 2..258 of the frame", frame.len());
+        obs.nontrivial = true;
+        if frame.len() > 258 {
+            obs.class("reg2-longer-than-258-adopted");
+        }
+    } else {
+        vensure!(reg.srtla_id()[..] == before[..], "decode-reg2-id", "a {}-byte frame of type {:#06x} (state {}, pending {}, arrival {}) changed the adopted id", frame.len(), ty, c.state, c.pending, c.arrive);
+        if c.ty % 6 == 0 && (256..=258).contains(&frame.len()) {
+            obs.nontrivial = true;
+        }
+    }
+    Ok(())
+}
+
+/// What the listener arm (`handle_srt_packet`, with the loop's reused MTU-sized receive buffer) attaches to
+/// each client datagram: the tracked sequence number must be the reference decoder's reading of exactly the
+/// bytes that were received, whatever an earlier, longer datagram left behind in the buffer.
+pub fn check_glue(case: &Vec<Vec<u8>>, obs: &mut Obs) -> CheckResult {
+    use crate::engine::shell::Shell;
+    let mut sh = Shell::new(&[0, 1], srtla_core::ConfigSnapshot::default());
+    sh.establish_all();
+    let mut prev_len = 0usize;
+    for (k, d) in case.iter().enumerate() {
+        if d.is_empty() {
+            continue;
+        }
+        sh.client_pkt(d);
+        for (i, c) in sh.st.conns.iter().enumerate() {
+            for (bytes, seq) in c.batch_sender.verif_queue_snapshot() {
+                let want = rc::srt_seq(&bytes);
+                vensure!(seq == want, "glue-decode-seq", "datagram {k} ({} bytes, after one of {prev_len} bytes): queued on link {i} with tracked sequence number {:?}, the bytes say {:?}", bytes.len(), seq, want);
+            }
+        }
+        if d.len() < 4 && prev_len > d.len() {
+            obs.nontrivial = true;
+            obs.class("runt-after-longer-datagram");
+        }
+        prev_len = d.len();
+        if k % 8 == 7 {
+            sh.flush_tick();
+        }
+        let _ = sh.drain_wire();
+    }
+    Ok(())
+}
+
+fn glue_strategy() -> impl Strategy<Value = Vec<Vec<u8>>> {
+    let d = prop_oneof![
+        3 => vec(any::<u8>(), 1..4),
+        2 => vec(any::<u8>(), 4..20),
+        2 => (0u32..0x7fff_ffff, 16usize..1500).prop_map(|(s, n)| {
+            let mut p = vec![0xa5u8; n];
+            p[0..4].copy_from_slice(&s.to_be_bytes());
+            p
+        }),
+        1 => (any::<u16>(), 2usize..60).prop_map(|(t, n)| {
+            let mut p = vec![0u8; n];
+            p[0] = 0x80 | (t >> 8) as u8;
+            p[1] = t as u8;
+            p
+        }),
+    ];
+    vec(d, 1..24)
+}
+
 pub fn run(ctx: &Ctx) -> &'static str {
     ctx.assume("reference decoder refmodel::codec is written from the C15 layout statement and the SRT/SRTLA header docs, sharing no code with srtla-protocol");
     ctx.assume("retransmit flag on a data header truncated to 5..7 bytes: statement leaves it open, both answers accepted");
@@ -417,7 +530,9 @@ pub fn run(ctx: &Ctx) -> &'static str {
         let done = ctx.replay_case::<Vec<u8>, _>("bytes", &file, &body, |c, o| check_bytes(c, o))
             || ctx.replay_case::<Vec<u8>, _>("short-exhaustive", &file, &body, |c, o| check_bytes(c, o))
             || ctx.replay_case::<TypedCase, _>("types-x-guards", &file, &body, |c, o| check_bytes(&typed_bytes(c), o))
-            || ctx.replay_case::<Built, _>("builders", &file, &body, check_built);
+            || ctx.replay_case::<Built, _>("builders", &file, &body, check_built)
+            || ctx.replay_case::<RegFrame, _>("registration-frames", &file, &body, check_reg_frame)
+            || ctx.replay_case::<Vec<Vec<u8>>, _>("glue-decode", &file, &body, check_glue);
         if !done {
             eprintln!("replay {}: unknown part", file.display());
         }
@@ -473,6 +588,24 @@ pub fn run(ctx: &Ctx) -> &'static str {
         ctx.tier.pick(20_000, 400_000),
         built_strategy,
         |_| check_built,
+    );
+    // exhaustive: registration frames of every reply type and every length 0..=1500 in every manager state
+    let frames = (0u8..3).flat_map(|state| {
+        (0u8..2).flat_map(move |pending| (0u8..2).flat_map(move |arrive| (0u8..6).flat_map(move |ty| (0u16..=1500).map(move |len| RegFrame { state, pending, arrive, ty, len }))))
+    });
+    ctx.enumerate(
+        "registration-frames",
+        "the registration manager's frame decoder (REG2 id adoption) in every state (fresh / REG1 outstanding / re-registering with an id) x pending link x arrival link x 6 frame types x every length 0..=1500: no panic, id = bytes 2..258 exactly when a >=258-byte REG2 arrives on the pending link, unchanged otherwise; non-trivial = REG2 within 2 bytes of the guard or adopted",
+        true,
+        frames,
+        check_reg_frame,
+    );
+    ctx.explore(
+        "glue-decode",
+        "client datagram sequences (runts of 1..3 bytes, short headers, data packets up to 1500 bytes, control packets) through the real handle_srt_packet with the loop's reused receive buffer; the sequence number tracked with each queued datagram must equal the reference decoder's reading of exactly the received bytes; non-trivial = a runt followed a longer datagram",
+        ctx.tier.pick(4_000, 60_000),
+        glue_strategy,
+        |_| check_glue,
     );
     if ctx.tier == crate::rt::Tier::Thorough {
         crate::fuzzrun::campaign(ctx, "c15_codec", 300);
